@@ -11,10 +11,12 @@ package main
 import (
 	"fmt"
 	"strconv"
+	"strings"
 	"time"
 
 	simplefixgo "github.com/b2broker/simplefix-go"
 	"github.com/b2broker/simplefix-go/fix"
+	"github.com/b2broker/simplefix-go/session"
 	"github.com/b2broker/simplefix-go/storages/memory"
 	fixgen "github.com/b2broker/simplefix-go/tests/fix44"
 	"vlib"
@@ -100,8 +102,13 @@ func c05Scenario(name string, p map[string]any) *schedScenario {
 		for g := 0; g < G; g++ {
 			g := g
 			go func() {
+				shared := fixgen.NewMarketDataRequest().SetMDReqID(fmt.Sprintf("g%dshared", g))
 				for m := 0; m < M; m++ {
-					if err := w.s.Send(fixgen.NewMarketDataRequest().SetMDReqID(fmt.Sprintf("g%dm%d", g, m))); err != nil {
+					msg := fixgen.NewMarketDataRequest().SetMDReqID(fmt.Sprintf("g%dm%d", g, m))
+					if extra == "same-object" {
+						msg = shared // one message object sent again and again (as the repository's own high-load test does)
+					}
+					if err := w.s.Send(msg); err != nil {
 						obs.sendErrs++
 					}
 				}
@@ -179,11 +186,94 @@ func c05Scenario(name string, p map[string]any) *schedScenario {
 	return sc
 }
 
+// ---- C05, history part: over all short histories of the logon protocol alphabet (pre-logon rejects,
+// refused and accepted logons, logouts, re-logons, resend requests, local sends) every message handed to
+// the connection carries the next number, retransmissions (byte-identical repeats of an earlier message
+// after a ResendRequest) aside.
+
+type seqMon struct {
+	next int
+	sent map[int]string
+}
+
+func (m *seqMon) Key() string { return fmt.Sprint(m.next) }
+
+func (m *seqMon) Step(w *world, ev event, outs []outMsg) (string, string) {
+	for _, o := range outs {
+		q := seqOf(o.Msg)
+		if q == m.next {
+			m.sent[q] = string(o.Msg)
+			m.next++
+			continue
+		}
+		if prev, ok := m.sent[q]; ok && prev == string(o.Msg) && strings.HasPrefix(ev.Name, "ResendRequest") {
+			continue // a retransmission requested by the peer
+		}
+		kind := "gap"
+		if q < m.next {
+			kind = "duplicate-or-restart"
+		}
+		return "history-numbering:" + kind, fmt.Sprintf("after %s: outbound %s carries MsgSeqNum %d, expected %d", ev.Name, typeName(mtype(o.Msg)), q, m.next)
+	}
+	return "", ""
+}
+
+func c05HistCfgs(tier string) []*histCfg {
+	var cfgs []*histCfg
+	depth := 3
+	if tier == "thorough" {
+		depth = 4
+	}
+	for _, role := range []string{"acc", "ini"} {
+		role := role
+		pevs := protoAlphabet(role, "C06")
+		var alpha []event
+		for _, e := range pevs {
+			alpha = append(alpha, e.event)
+		}
+		cfgs = append(cfgs, &histCfg{
+			Name: "c05hist/" + role, Alphabet: alpha, Depth: depth,
+			World: func() *world {
+				return newWorld(wcfg{Role: role, Buf: 10, HbMin: 5, HbMax: 30, HbInt: 30,
+					RefuseLogon: func(r *session.LogonSettings) error {
+						if r.Username == "bad" {
+							return errRefused
+						}
+						return nil
+					}})
+			},
+			NewMon: func(w *world) monitor {
+				m := &seqMon{next: 1, sent: map[int]string{}}
+				for _, o := range w.outs { // the initiator's Logon left during construction
+					m.sent[seqOf(o.Msg)] = string(o.Msg)
+					m.next = seqOf(o.Msg) + 1
+				}
+				return m
+			},
+		})
+	}
+	return cfgs
+}
+
 func runC05(R *vlib.Out) {
 	if *vlib.ReplayPath != "" {
+		var probe struct {
+			Cfg string `json:"cfg"`
+		}
+		vlib.LoadReplay(&probe)
+		if strings.HasPrefix(probe.Cfg, "c05hist/") {
+			replayHist(R, c05HistCfgs(*vlib.Tier))
+			return
+		}
 		replaySched(R, c05Scenario)
 		finishSched(R)
 		return
+	}
+	for _, c := range c05HistCfgs(*vlib.Tier) {
+		saved := vsched.TrackStates
+		vsched.TrackStates = false
+		exploreHist(R, c)
+		vsched.TrackStates = saved
 	}
 	bound := 1
 	if *vlib.Tier == "thorough" {
@@ -203,14 +293,14 @@ func runC05(R *vlib.Out) {
 		}
 		cfgs = append(cfgs, cfg{role, 1, 2, 2, "none", bound}, cfg{role, 0, 3, 1, "none", bound},
 			cfg{role, 1, 2, 1, "testreq", bound}, cfg{role, 0, 2, 1, "reject", bound}, cfg{role, 1, 2, 1, "hb", bound},
-			cfg{role, 1, 2, 1, "second-session", bound})
+			cfg{role, 1, 2, 1, "second-session", bound}, cfg{role, 10, 2, 3, "same-object", bound}, cfg{role, 1, 1, 3, "same-object", bound})
 	}
 	for i, c := range cfgs {
 		if vlib.Expired() {
 			R.Cap("deadline")
 			break
 		}
-		scenarioBudget = vlib.Remaining() / time.Duration(len(cfgs)-i)
+		scenarioBudget = 4 * vlib.Remaining() / time.Duration(len(cfgs)-i) // most scenarios finish far below their share
 		sc := c05Scenario("c05", map[string]any{"role": c.role, "buf": c.buf, "G": c.G, "M": c.M, "extra": c.extra})
 		sc.Bound = c.bound
 		exploreSched(R, sc)
